@@ -35,6 +35,9 @@ type ReplayFailure struct{ Msg string }
 
 func (r ReplayFailure) Error() string { return "VERIF-ASSERT-FAILED: " + r.Msg }
 
+// HarnessError is a failure of the replay machinery itself (never a reproduction).
+type HarnessError struct{ Msg string }
+
 // AssumptionFailed is the panic value used natively when the model violates an assumption.
 type AssumptionFailed struct{}
 
@@ -48,10 +51,10 @@ func load() {
 	if p := os.Getenv("VERIF_MODEL"); p != "" {
 		b, err := os.ReadFile(p)
 		if err != nil {
-			panic(err)
+			panic(HarnessError{"cannot read the model file: " + err.Error()})
 		}
 		if err := json.Unmarshal(b, &model); err != nil {
-			panic(err)
+			panic(HarnessError{"cannot parse the model file: " + err.Error()})
 		}
 	}
 	if ps := os.Getenv("VERIF_PARAMS"); ps != "" {
